@@ -1050,6 +1050,34 @@ def _bind_call(fi, call):
     return b
 
 
+def join_alternatives(text):
+    """The alternatives of a value joined over the arms of an undecided `if` (JOIN(a | b), nested), else [text]."""
+    if not (text.startswith('JOIN(') and text.endswith(')')):
+        return [text]
+    inner, d, parts, cur = text[5:-1], 0, [], ''
+    i = 0
+    while i < len(inner):
+        ch = inner[i]
+        if ch in '([{':
+            d += 1
+        elif ch in ')]}':
+            d -= 1
+            if d < 0:
+                return [text]          # the closing bracket of JOIN( is not the last character's partner
+        if d == 0 and inner.startswith(' | ', i):
+            parts.append(cur)
+            cur = ''
+            i += 3
+            continue
+        cur += ch
+        i += 1
+    parts.append(cur)
+    out = []
+    for p_ in parts:
+        out.extend(join_alternatives(p_))
+    return out
+
+
 def hex_decoded(text):
     """X if `text` denotes the octets whose hexadecimal spelling is the str X (the idioms are equivalent on hex digits), else None."""
     m = re.match(r'^(?:binascii\.)?(?:unhexlify|a2b_hex)\((.+)\)$', text or '')
@@ -1143,8 +1171,10 @@ def check_ids_rooted_at_self(rep, prog, rid):
                     b = _bind_call(addnew, c)
                     val = b.get('intended_recipient')
                     # the element of the caller's intended_recipients the value is rooted at (a bound variable of the path)
-                    m = re.match(r'^(\$[\d.]+(?:_\d+)*)(\.fingerprint)?$', val or '')
-                    rcpts.setdefault((c[3], val), (m.group(1) if m else None, s.bound.get(m.group(1)) if m else None))
+                    # (an if / elif that picks `<r>.fingerprint` or `<r>` before one shared call joins the two values)
+                    ms = [re.match(r'^(\$[\d.]+(?:_\d+)*)(\.fingerprint)?$', a) for a in join_alternatives(val or '')]
+                    var = ms[0].group(1) if ms and all(ms) and len(set(m.group(1) for m in ms)) == 1 else None
+                    rcpts.setdefault((c[3], val), (var, s.bound.get(var) if var else None))
                 if (c[1][0] if c[1] else c[2].get(a_params[0])) == "'IssuerFingerprint'":
                     b = _bind_call(addnew, c)
                     fpr.setdefault((c[3], b.get('_issuer_fpr'), b.get('_version'), b.get(a_params[1]) if len(a_params) > 1 else None), c)
